@@ -22,8 +22,9 @@ GRIDS_MORE = [
 def run(tier, seed):
     ctx = CheckContext("C04", tier, seed)
     ctx.invariants = ["NothingMissed", "TightSpan", "EqualsFixed", "ContentsStayPut"]
-    cfg = "MC_Adaptive_c04q" if tier == "quick" else "MC_Adaptive_c04t"
-    _res, g = ctx.model_check(cfg, required_actions=REQ)
+    if tier == "thorough":
+        ctx.model_check("MC_Adaptive_c04t", dump=False)        # deep exhaustive run (far index 50, one more call)
+    _res, g = ctx.model_check("MC_Adaptive_c04q", required_actions=REQ)
     grids = GRIDS_QUICK + (GRIDS_MORE if tier == "thorough" else [])
     for n, gr in enumerate(grids):
         ad = AdaptiveAdapter(gr, spelling=n, wscale=(1, 1) if n % 2 == 0 else (1, 2))
